@@ -58,6 +58,7 @@ func (s *Session) client(info services.ServiceInfo) (bus.Client, error) {
 	if len(info.Endpoints) == 0 {
 		return nil, fmt.Errorf("empty address list")
 	}
+	vhook.Emit("session", s, "request", "call", vhook.ID(&info), "name", info.Name)
 	vhook.Gate("session.client.enter", s, &info)
 	s.pollMutex.RLock()
 	for _, addr := range info.Endpoints {
@@ -73,13 +74,16 @@ func (s *Session) client(info services.ServiceInfo) (bus.Client, error) {
 	vhook.Gate("session.client.miss", s, &info)
 	addr, channel, err := bus.SelectEndPoint(info.Endpoints, s.userName, s.userToken)
 	if err != nil {
+		vhook.Emit("session", s, "selfail", "call", vhook.ID(&info))
 		return nil, fmt.Errorf("service connection error (%s): %s", info.Name, err)
 	}
 	vhook.Emit("session", s, "dialed", "call", vhook.ID(&info), "addr", addr)
+	vhook.Emit("session", s, "connected", "call", vhook.ID(&info), "addr", addr, "channel", channel)
 	vhook.Gate("session.client.dialed", s, &info)
 	filter := func(hdr *net.Header) (matched bool, keep bool) { return false, true }
 	consumer := func(msg *net.Message) error { panic("unexpected") }
 	closer := func(err error) {
+		vhook.Gate("session.closer", s, addr, channel)
 		s.pollMutex.Lock()
 		delete(s.poll, addr)
 		vhook.Emit("session", s, "closed", "addr", addr)
